@@ -159,7 +159,11 @@ fn register_file(
             let start = file.raw_file_position();
             let size = file.size();
 
-            files.insert(desc.clone(), (start, size));
+            if files.insert(desc.clone(), (start, size)).is_some() {
+                // Already listed by an earlier member with the same path (eg
+                // an updated archive): the last member wins
+                return Some(());
+            }
             OwnedEntry::File(desc)
         } else {
             register_dir(dirs, &id);
